@@ -262,4 +262,9 @@ def apply(text, log, extra_subs=()):
             raise KeyError('unit substitution matched nothing: %s' % rx)
         log.append(('Rsub', rx, rep + ('  # ' + why if why else '')))
         t = t2
+    # R12: wildcard closure parameter `|_|` -> `|_e|` (Verus supports only variable patterns there)
+    t2 = re.sub(r'\|\s*_\s*\|', '|_e|', t)
+    if t2 != t:
+        log.append(('R12', '|_|', '|_e|'))
+    t = t2
     return t
